@@ -1,150 +1,8 @@
 /-
-Line-protocol driver for C17: the generated table `EkwVerif.Gen.shmApi` interpreted by `Model/Codec.lean`.
-
-  {"op":"enc","cls":C,"vals":[V,...]}   V = {"i":"<decimal>"} | {"s":[code points]} | {"a":"printable ascii"}
-      -> {"ok":"<hex>"} | {"err":E}
-  {"op":"dec","hex":"<hex>"}
-      -> {"ok":{"cls":C,"vals":[V,...]}} | {"err":E}
-  {"op":"classes"} -> [{"cls":C,"fields":[...],"base":b,"response":b,"tag":"<hex>"|null}]
-  {"op":"job","job":JOB,"real":<the JSON the real code wrote>}      (Model/Json.lean)
-      JOB = {"tasks":[[name,{"def":{...},"kw":{..},"ps":{..}}],..],"edges":[{"source":[t,o],"sink_task":s,"kw":k|null,"ps":n|null}],
-             "serdes":[[type,ser,des]],"ext":[[t,o]]}   (pairs sorted by key)
-      -> {"dump":<dumpJob JOB>,"reload":loadJob (dumpJob JOB) == JOB,"load_real":loadJob real == JOB}
+Line-protocol driver for C17: entry point. The protocol and all the code are in `Drive/C17Lib.lean` (a library module, so
+that `lake env lean --run EkwVerif/Drive/C17.lean` elaborates only this file).
 -/
-import EkwVerif.Drive.Util
-import EkwVerif.Model.Codec
-import EkwVerif.Model.Json
-import EkwVerif.Gen.ShmApi
-open Lean EkwVerif.Drive EkwVerif.Codec
-
-/-! ### job instances (Model/Json.lean) -/
-section Job
-open EkwVerif.Json (J DatasetId Edge TaskDef TaskInst JobInst dumpJob loadJob)
-
-partial def ofJson : Json → J
-  | .null => .null
-  | .bool b => .bool b
-  | .num n => .num n.mantissa n.exponent
-  | .str s => .str s
-  | .arr a => .arr (a.toList.map ofJson)
-  | .obj o => .obj (o.toList.map (fun (k, v) => (k, ofJson v)))
-
-partial def toJsonJ : J → Json
-  | .null => .null
-  | .bool b => .bool b
-  | .num m e => .num ⟨m, e⟩
-  | .str s => .str s
-  | .arr l => .arr (l.map toJsonJ).toArray
-  | .obj kvs => Json.mkObj (kvs.map (fun (k, v) => (k, toJsonJ v)))
-
-/-- numbers are compared by value (1.0 = 1, 1e2 = 100) -/
-partial def beqJ : J → J → Bool
-  | .null, .null => true
-  | .bool a, .bool b => a == b
-  | .num m1 e1, .num m2 e2 => m1 * (10 : Int) ^ e2 == m2 * (10 : Int) ^ e1
-  | .str a, .str b => a == b
-  | .arr a, .arr b => a.length == b.length && (a.zip b).all (fun (x, y) => beqJ x y)
-  | .obj a, .obj b => a.length == b.length && (a.zip b).all (fun (x, y) => x.1 == y.1 && beqJ x.2 y.2)
-  | _, _ => false
-
-instance : BEq J := ⟨beqJ⟩
-deriving instance BEq for DatasetId, Edge, TaskDef, TaskInst, JobInst
-
-def jOptStr (j : Json) (k : String) : Option String := getOptStr j k
-def jOptInt (j : Json) (k : String) : Option Int :=
-  match j.getObjVal? k with
-  | .ok (.num n) => if n.exponent == 0 then some n.mantissa else none
-  | _ => none
-def jObj (j : Json) (k : String) : List (String × J) :=
-  match j.getObjVal? k with
-  | .ok v => match ofJson v with | .obj kvs => kvs | _ => []
-  | _ => []
-def strPairs (l : List Json) : List (String × String) :=
-  l.map (fun p => match asArr p with | [a, b] => (asStr a, asStr b) | _ => ("", ""))
-def dsOf (j : Json) : DatasetId := match asArr j with | [a, b] => ⟨asStr a, asStr b⟩ | _ => ⟨"", ""⟩
-
-def jobOfJson (j : Json) : JobInst :=
-  { tasks := (getArr j "tasks").map (fun p => match asArr p with
-      | [n, t] =>
-        let d := (t.getObjVal? "def").toOption.getD Json.null
-        (asStr n, { defn := { entrypoint := getStr d "entrypoint", func := jOptStr d "func",
-                              environment := (getArr d "environment").map asStr,
-                              inputSchema := strPairs (getArr d "input_schema"),
-                              outputSchema := strPairs (getArr d "output_schema"),
-                              needsGpu := getBool d "needs_gpu" },
-                    kw := jObj t "kw", ps := jObj t "ps" })
-      | _ => ("", ⟨⟨"", none, [], [], [], false⟩, [], []⟩)),
-    edges := (getArr j "edges").map (fun e =>
-      { source := dsOf ((e.getObjVal? "source").toOption.getD Json.null), sinkTask := getStr e "sink_task",
-        kw := jOptStr e "kw", ps := jOptInt e "ps" }),
-    serdes := (getArr j "serdes").map (fun p => match asArr p with
-      | [a, b, c] => (asStr a, (asStr b, asStr c)) | _ => ("", ("", ""))),
-    ext := (getArr j "ext").map dsOf }
-
-def jobStep (j : Json) : Json :=
-  let job := jobOfJson ((j.getObjVal? "job").toOption.getD Json.null)
-  let real := ofJson ((j.getObjVal? "real").toOption.getD Json.null)
-  let d := dumpJob job
-  Json.mkObj [("dump", toJsonJ d),
-              ("reload", Json.bool (match loadJob d with | some j2 => j2 == job | none => false)),
-              ("load_real", Json.bool (match loadJob real with | some j2 => j2 == job | none => false))]
-end Job
-
-def hexDigit (n : Nat) : Char := "0123456789abcdef".toList.getD n '0'
-
-def toHex (bs : Bytes) : String :=
-  String.ofList (bs.foldr (fun b acc => hexDigit (b / 16 % 16) :: hexDigit (b % 16) :: acc) [])
-
-def hexVal (c : Char) : Nat :=
-  if '0' ≤ c ∧ c ≤ '9' then c.toNat - '0'.toNat
-  else if 'a' ≤ c ∧ c ≤ 'f' then c.toNat - 'a'.toNat + 10
-  else 0
-
-def fromHexL : List Char → Bytes
-  | a :: b :: rest => (hexVal a * 16 + hexVal b) :: fromHexL rest
-  | _ => []
-
-def fromHex (s : String) : Bytes := fromHexL s.toList
-
-def errName : Err → String
-  | .overflow => "overflow" | .unicode => "unicode" | .type => "type"
-  | .value => "value" | .key => "key" | .arity => "arity"
-
-def valOfJson (j : Json) : Val :=
-  match j.getObjVal? "i" with
-  | .ok (.str s) => .int (s.toInt?.getD 0)
-  | _ =>
-    match j.getObjVal? "a" with
-    | .ok (.str s) => .str (s.toList.map Char.toNat)     -- compact form: printable ASCII
-    | _ => .str ((getArr j "s").map asNat)
-
-def printable (cs : List Nat) : Bool := !cs.isEmpty && cs.all (fun c => 32 ≤ c && c < 127 && c != 34 && c != 92)
-
-def valToJson : Val → Json
-  | .int n => Json.mkObj [("i", Json.str (toString n))]
-  | .str cs =>
-    if printable cs then Json.mkObj [("a", Json.str (String.ofList (cs.map Char.ofNat)))]
-    else Json.mkObj [("s", nats cs)]
-
-def errJson (e : Err) : Json := Json.mkObj [("err", Json.str (errName e))]
-
-def c17Step (u : Unit) (j : Json) : Unit × Json :=
-  match getStr j "op" with
-  | "enc" =>
-    let m : Msg := { cls := getStr j "cls", vals := (getArr j "vals").map valOfJson }
-    match encode EkwVerif.Gen.shmApi m with
-    | .ok bs => (u, Json.mkObj [("ok", Json.str (toHex bs))])
-    | .error e => (u, errJson e)
-  | "dec" =>
-    match decode EkwVerif.Gen.shmApi (fromHex (getStr j "hex")) with
-    | .ok m => (u, Json.mkObj [("ok", Json.mkObj [("cls", Json.str m.cls), ("vals", Json.arr (m.vals.map valToJson).toArray)])])
-    | .error e => (u, errJson e)
-  | "classes" =>
-    (u, Json.arr (EkwVerif.Gen.shmApi.msgs.map (fun s => Json.mkObj [
-      ("cls", Json.str s.cls), ("fields", strs s.fields), ("base", Json.bool s.isBase),
-      ("response", Json.bool s.isResponse),
-      ("tag", match EkwVerif.Gen.shmApi.c2b s.cls with | some t => Json.str (toHex t) | none => Json.null)])).toArray)
-  | "job" => (u, jobStep j)
-  | _ => (u, Json.str "bad-op")
+import EkwVerif.Drive.C17Lib
+open EkwVerif.Drive
 
 def main : IO Unit := runLoop () c17Step
